@@ -1,6 +1,8 @@
 import Lean.Data.Json
 import BpModel.Model.PyRt
 import BpModel.Model.CRtTree
+import BpModel.Model.OpMode
+import BpModel.Model.Wire
 /-!
 # bpdrv — line-protocol driver for the executable model
 
@@ -207,6 +209,27 @@ def handle (op : String) (req : Json) : Except String Json := do
         else r.1
       pure (okJson (toHex mem'))
     else pure (Json.mkObj [("exc", "oob")])
+  | "op.plan" =>
+    let (_, t) ← getTy req
+    let enc ← req.getObjValAs? Bool "enc"
+    let leaves := (OpMode.planTree enc t 0).1
+    pure (okJson (.arr (leaves.map fun (n, sg, its) => Json.mkObj [("n", n), ("signed", sg),
+      ("items", .arr (its.map fun it => Json.mkObj [("si", it.si), ("fi", it.fi), ("shift", it.shift),
+        ("mask", it.mask), ("r", it.r)]).toArray)]).toArray))
+  | "op.encode" =>
+    let (t0, t) ← getTy req
+    let d ← req.getObjValAs? String "dialect"
+    let dl := if d == "cBE" then OpMode.Dialect.cBE else if d == "go" then OpMode.Dialect.go else OpMode.Dialect.cLE
+    let v ← valOfJson t0 (← req.getObjVal? "val")
+    match Wire.encodeWith (OpMode.encLeaf dl) t v with
+    | .ok bs => pure (okJson (toHex bs))
+    | .error e => pure (excJson e)
+  | "op.decode" =>
+    let (_, t) ← getTy req
+    let bs ← ofHex (← req.getObjValAs? String "bytes")
+    match Wire.decodeWith OpMode.decLeaf t bs with
+    | .ok v => pure (okJson (valToJson t v))
+    | .error e => pure (excJson e)
   | _ => .error s!"unknown op {op}"
 
 def handleLine (line : String) : Json :=
